@@ -130,11 +130,20 @@ func randSession(r *rand.Rand, d string, hostile int) (units [][]byte, class str
 		}
 	}
 	class = "plain"
-	units = append(units, ctl(0x1210, body1210(d, r, files)))
+	// the files may be announced by two 0x1210 messages on the same connection: the second adds to what the first announced
+	two := nf >= 2 && hostile == 0 && r.Intn(3) == 0
+	if two {
+		units = append(units, ctl(0x1210, body1210(d, r, files[:1])))
+	} else {
+		units = append(units, ctl(0x1210, body1210(d, r, files)))
+	}
 	type piece struct{ f, off, n int }
 	var pieces []piece
 	for i, f := range files {
 		units = append(units, ctl(0x1211, body1211(f.name, byte(r.Intn(5)), len(f.content))))
+		if two && i == 0 {
+			units = append(units, ctl(0x1210, body1210(d, r, files[1:])))
+		}
 		maxc := []int{1 + len(f.content)/6, 3 + len(f.content)/4, 64, 400}[r.Intn(4)]
 		for off := 0; off < len(f.content); {
 			n := 1 + r.Intn(maxc)
@@ -415,6 +424,7 @@ func init() {
 			{200000, 1000, []int{0, 64, 65, 66, 131, 199}, "SC"}, // many small chunks, gaps at the 2^16 / 2^17 marks and both ends
 			{131072, 131072, nil, "HN"},                          // one chunk of 2^17 bytes
 			{100001, 40000, []int{2}, "JS"},                      // the tail lost
+			{1500000, 60000, []int{0, 13}, "JS"},                 // 1.5 MB through one connection, its first chunk outstanding all the while
 		}
 		for pi, pl := range plans {
 			content := make([]byte, pl.size)
